@@ -434,6 +434,8 @@ type runWorld struct {
 	nextReq int
 	other   map[string]int // violations of the property that is not being checked in this run
 	tainted bool           // VERIF_IGNORE matched in this run
+	cancels []context.CancelFunc
+	closing bool // teardown has begun: no new requests
 }
 
 func (w *runWorld) note(f string, a ...any) {
@@ -637,6 +639,7 @@ func (w *runWorld) doRequest(srv *simServer, r *reqState) {
 		panic(err)
 	}
 	ctx, cancel := context.WithCancel(context.Background())
+	w.cancels = append(w.cancels, cancel)
 	hr, _ := http.NewRequestWithContext(ctx, "POST", "/completion", bytes.NewReader(body))
 	mw := &memWriter{hdr: http.Header{}, r: r, cancel: cancel}
 	if r.cancelAfter > 0 {
@@ -681,7 +684,7 @@ func (w *runWorld) client(ci int) {
 	d := verifsim.Draw
 	for k := 0; k < w.cfg.reqPerClient; k++ {
 		verifsim.Sleep(time.Duration(d("think", 400)) * time.Microsecond * time.Duration(1+9*d("think-long", 2)))
-		if w.main.exited {
+		if w.main.exited || w.closing {
 			break
 		}
 		r := w.drawRequest(ci)
@@ -810,10 +813,26 @@ func runRunner(t *testing.T, tape *verifsim.Tape, prop, tier string, keepLog boo
 		}
 		res.Sample = w.desc
 
-		// teardown
+		// teardown: nothing may stay behind (a goroutine abandoned with the bubble is never
+		// collected, nor is the Server, cache and vocabulary it refers to): end every request,
+		// stop the run loops, then unwind whatever is still parked.
+		sim.OnStep = nil
+		w.closing = true
+		for _, c := range w.cancels {
+			c()
+		}
 		srv.stop(sim)
+		sim.Drain(100*time.Millisecond, 20000)
 		sim.AbortCondWaiters()
-		sim.RunUntil(nil, time.Second, 3000)
+		sim.Crash()
+		if n := sim.LiveTasks(); n > 0 {
+			res.Info["tasks_left_behind"] += n
+			if verifDebug {
+				for _, t := range sim.Blocked() {
+					res.Info["left:"+t.Name()+"@"+t.Label()]++
+				}
+			}
+		}
 	})
 }
 
